@@ -72,7 +72,7 @@ def roundtrip(r: Run, stream, c, label, spelling=None, full=True, want_print=Tru
             f'decode(encode(circuit)) is a different program ({d})',
             {'stream': stream, 'label': label, 'text': text, 'before': fmt_ops(a),
              'after': fmt_ops(b)})
-    if want_print and all(x[0] == 'G' for x in impl_ops(c)) and \
+    if want_print and all(x[0] in ('G', 'R', 'Z') for x in impl_ops(c)) and \
             all(op.gate.get_qasm_gate_def() == '' for op in c):
         # the Lean printer model must produce the very same text
         parts = [str(c.num_qudits)]
